@@ -2,6 +2,7 @@ package harness
 
 import (
 	"context"
+	"errors"
 	"maps"
 	"net/url"
 	"sync"
@@ -51,9 +52,46 @@ type RecStore struct {
 	Log  []StoreEv
 	Hook func(ctx context.Context, ev *StoreEv) error // nil = no gate, no faults
 	Keep bool                                         // keep the log (off in bulk runs that do not need it)
+
+	// creation order of rows per kind ("code","at","rt","dev","par"): the abstract id of a
+	// credential is its position in this list, which is how the specification numbers them
+	Order map[string][]string
 }
 
-func NewRecStore(m *storage.MemoryStore) *RecStore { return &RecStore{MemoryStore: m, Keep: true} }
+func NewRecStore(m *storage.MemoryStore) *RecStore {
+	return &RecStore{MemoryStore: m, Keep: true, Order: map[string][]string{}}
+}
+
+func (s *RecStore) created(kind, key string) {
+	s.mu.Lock()
+	s.Order[kind] = append(s.Order[kind], key)
+	s.mu.Unlock()
+}
+
+// IDOf returns the abstract id (creation index, 1-based) of a row key, 0 if unknown.
+func (s *RecStore) IDOf(kind, key string) int {
+	s.mu.Lock()
+	defer s.mu.Unlock()
+	for i, k := range s.Order[kind] {
+		if k == key {
+			return i + 1
+		}
+	}
+	return 0
+}
+func (s *RecStore) KeyOf(kind string, id int) string {
+	s.mu.Lock()
+	defer s.mu.Unlock()
+	if id >= 1 && id <= len(s.Order[kind]) {
+		return s.Order[kind][id-1]
+	}
+	return ""
+}
+func (s *RecStore) Keys(kind string) []string {
+	s.mu.Lock()
+	defer s.mu.Unlock()
+	return append([]string{}, s.Order[kind]...)
+}
 
 func (s *RecStore) pre(ctx context.Context, method string, req fosite.Requester, keys ...string) (*StoreEv, error) {
 	ev := &StoreEv{Proc: procOf(ctx), Method: method, Keys: keys}
@@ -129,7 +167,11 @@ func (s *RecStore) CreateAuthorizeCodeSession(ctx context.Context, code string, 
 	if _, err := s.pre(ctx, "CreateAuthorizeCodeSession", r, code); err != nil {
 		return err
 	}
-	return s.MemoryStore.CreateAuthorizeCodeSession(ctx, code, r)
+	if err := s.MemoryStore.CreateAuthorizeCodeSession(ctx, code, r); err != nil {
+		return err
+	}
+	s.created("code", code)
+	return nil
 }
 func (s *RecStore) GetAuthorizeCodeSession(ctx context.Context, code string, sess fosite.Session) (fosite.Requester, error) {
 	if _, err := s.pre(ctx, "GetAuthorizeCodeSession", nil, code); err != nil {
@@ -165,7 +207,11 @@ func (s *RecStore) CreateAccessTokenSession(ctx context.Context, sig string, r f
 	if _, err := s.pre(ctx, "CreateAccessTokenSession", r, sig); err != nil {
 		return err
 	}
-	return s.MemoryStore.CreateAccessTokenSession(ctx, sig, r)
+	if err := s.MemoryStore.CreateAccessTokenSession(ctx, sig, r); err != nil {
+		return err
+	}
+	s.created("at", sig)
+	return nil
 }
 func (s *RecStore) GetAccessTokenSession(ctx context.Context, sig string, sess fosite.Session) (fosite.Requester, error) {
 	if _, err := s.pre(ctx, "GetAccessTokenSession", nil, sig); err != nil {
@@ -183,10 +229,21 @@ func (s *RecStore) CreateRefreshTokenSession(ctx context.Context, sig, atSig str
 	if _, err := s.pre(ctx, "CreateRefreshTokenSession", r, sig, atSig); err != nil {
 		return err
 	}
-	return s.MemoryStore.CreateRefreshTokenSession(ctx, sig, atSig, r)
+	if err := s.MemoryStore.CreateRefreshTokenSession(ctx, sig, atSig, r); err != nil {
+		return err
+	}
+	s.created("rt", sig)
+	return nil
 }
 func (s *RecStore) GetRefreshTokenSession(ctx context.Context, sig string, sess fosite.Session) (fosite.Requester, error) {
 	if _, err := s.pre(ctx, "GetRefreshTokenSession", nil, sig); err != nil {
+		if errors.Is(err, fosite.ErrInactiveToken) {
+			// contract: ErrInactiveToken comes with the stored request
+			if r, e2 := s.MemoryStore.GetRefreshTokenSession(ctx, sig, sess); r != nil && (e2 == nil || errors.Is(e2, fosite.ErrInactiveToken)) {
+				return r, err
+			}
+			return nil, fosite.ErrNotFound
+		}
 		return nil, err
 	}
 	return s.MemoryStore.GetRefreshTokenSession(ctx, sig, sess)
@@ -255,7 +312,11 @@ func (s *RecStore) CreatePARSession(ctx context.Context, uri string, r fosite.Au
 	if _, err := s.pre(ctx, "CreatePARSession", r, uri); err != nil {
 		return err
 	}
-	return s.MemoryStore.CreatePARSession(ctx, uri, r)
+	if err := s.MemoryStore.CreatePARSession(ctx, uri, r); err != nil {
+		return err
+	}
+	s.created("par", uri)
+	return nil
 }
 func (s *RecStore) GetPARSession(ctx context.Context, uri string) (fosite.AuthorizeRequester, error) {
 	if _, err := s.pre(ctx, "GetPARSession", nil, uri); err != nil {
@@ -273,7 +334,11 @@ func (s *RecStore) CreateDeviceAuthSession(ctx context.Context, dsig, usig strin
 	if _, err := s.pre(ctx, "CreateDeviceAuthSession", r, dsig, usig); err != nil {
 		return err
 	}
-	return s.MemoryStore.CreateDeviceAuthSession(ctx, dsig, usig, r)
+	if err := s.MemoryStore.CreateDeviceAuthSession(ctx, dsig, usig, r); err != nil {
+		return err
+	}
+	s.created("dev", dsig)
+	return nil
 }
 func (s *RecStore) GetDeviceCodeSession(ctx context.Context, sig string, sess fosite.Session) (fosite.DeviceRequester, error) {
 	if _, err := s.pre(ctx, "GetDeviceCodeSession", nil, sig); err != nil {
@@ -327,9 +392,10 @@ func (s *ContractDeviceStore) GetDeviceCodeSession(ctx context.Context, sig stri
 // reference store (a store "with real rollback", as C18 asks for).
 type TxStore struct {
 	*RecStore
-	tmu   sync.Mutex
-	snap  *storage.MemoryStore
-	TxLog []string
+	tmu    sync.Mutex
+	snap   *storage.MemoryStore
+	ordLen map[string]int
+	TxLog  []string
 }
 
 type txKeyT struct{}
@@ -342,6 +408,12 @@ func (s *TxStore) BeginTX(ctx context.Context) (context.Context, error) {
 	s.tmu.Lock()
 	defer s.tmu.Unlock()
 	s.snap = snapshot(s.MemoryStore)
+	s.ordLen = map[string]int{}
+	s.RecStore.mu.Lock()
+	for k, v := range s.RecStore.Order {
+		s.ordLen[k] = len(v)
+	}
+	s.RecStore.mu.Unlock()
 	s.TxLog = append(s.TxLog, "begin")
 	return context.WithValue(ctx, txKeyT{}, true), nil
 }
@@ -370,6 +442,15 @@ func (s *TxStore) Rollback(ctx context.Context) error {
 	if s.snap != nil {
 		restore(s.MemoryStore, s.snap)
 		s.snap = nil
+		s.RecStore.mu.Lock()
+		for k := range s.RecStore.Order { // rows created inside the aborted transaction never existed
+			if n, ok := s.ordLen[k]; ok && n < len(s.RecStore.Order[k]) {
+				s.RecStore.Order[k] = s.RecStore.Order[k][:n]
+			} else if !ok {
+				s.RecStore.Order[k] = nil
+			}
+		}
+		s.RecStore.mu.Unlock()
 	}
 	if err != nil {
 		s.TxLog = append(s.TxLog, "rollback_fail")
